@@ -249,9 +249,9 @@ def run(tier, seed):
     chk.add_rule("C04.S.function_and_code_from_one_cached_pair", ok, sites, failing)
     ok, sites, failing = frame.rule_names()
     chk.add_rule("C04.S.names_reserved", ok, sites, failing)
-    from ..kernels import c04_fuse
+    from ..kernels import c04_fuse, c04_scope
     from ..kernels.base import run_kernel
-    for k in c04_fuse.KERNELS:
+    for k in c04_fuse.KERNELS + c04_scope.KERNELS:
         chk.add_kernel(run_kernel(k, tier))
     n = 12 if tier == "quick" else 600
     res = [x for r in harness.pmap(_work, [(seed, i) for i in range(n)]) for x in r]
